@@ -723,8 +723,16 @@ def expected_failure(ev) -> bool:
     if fk == "P":
         return f["mode"] in C_MODES_FAIL
     if fk == "M":
-        return True
+        # a str path or a one-element list is "malformed" for today's type check, but an
+        # implementation that accepts them and places the output correctly also satisfies
+        # the property: either outcome is accepted (and then held to its own oracle)
+        return f["mode"] not in ("ret_str", "ret_list")
     return False
+
+
+def may_fail(ev) -> bool:
+    f = ev["fault"]
+    return f["kind"] == "M" and f["mode"] in ("ret_str", "ret_list")
 
 
 def judge_event(ev) -> list:
@@ -740,7 +748,7 @@ def judge_event(ev) -> list:
     changed = {k: (b, a) for k, b, a in diff["changed"]}
     removed = set(diff["removed"])
     fk = ev["fault"]["kind"]
-    fired_any = (bool(ev.get("fired")) or expected_failure(ev) or (fk == "E3" and ev.get("e3_armed"))
+    fired_any = (bool(ev.get("fired")) or expected_failure(ev) or may_fail(ev) or (fk == "E3" and ev.get("e3_armed"))
                  or ev.get("natural_ok") is False)
 
     def v(cls, **kw):
